@@ -73,7 +73,7 @@ def read(self, path: str, detect_rf_use: bool = False, remove_duplicates: bool =
 
             # Gradient raster time
             if 'GradientRasterTime' in self.definitions:
-                self.gradient_raster_time = self.definitions['GradientRasterTime']
+                self.grad_raster_time = self.definitions['GradientRasterTime']
 
             # Radio frequency raster time
             if 'RadiofrequencyRasterTime' in self.definitions:
